@@ -9,7 +9,7 @@ from adaptix import ProviderNotFoundError
 from . import hostile, spec
 from .adx import MODES, make_retort, mode_name
 
-ONE_SHOT = {"iter([1,2])", "generator"}
+ONE_SHOT = {"iter([1,2])", "generator", "iter-of-pairs"}
 
 
 class Program:
